@@ -12,6 +12,7 @@ _reg('api', ['H1', 'D2', 'I7'])
 _reg('life', ['H6', 'H7', 'H3'])
 _reg('sshash', ['S4', 'D1', 'S1'])
 _reg('vmloop', ['I8'])
+_reg('foot', ['F1'])
 
 PROPS = {
  'C11': dict(level='other', lemmas=['B1', 'B2', 'B3', 'B4', 'B5'],
@@ -53,5 +54,8 @@ PROPS = {
    explanation='TODO', trusted=[], outside=[]),
  'C07': dict(level='other', lemmas=['I4', 'I6', 'I1', 'J1'],
    files=['src/bytecode_machine.cpp', 'src/bytecode_machine.hpp', 'src/jit_compiler_x86.cpp', 'src/configuration.h', 'src/common.hpp', 'doc/specs.md'],
+   explanation='TODO', trusted=[], outside=[]),
+ 'C14': dict(level='other', footprint=True, max_jobs_per_lemma=6, lemmas=['F1', 'H6', 'H7', 'I8', 'I1', 'J1', 'D1', 'D2', 'S1', 'S4', 'A5', 'A2', 'B2', 'B3', 'H1', 'H3', 'G4'],
+   files=['src/randomx.cpp', 'src/virtual_machine.cpp', 'src/dataset.cpp', 'src/vm_interpreted_light.cpp', 'src/vm_compiled_light.cpp', 'src/superscalar.cpp', 'src/soft_aes.cpp', 'src/cpu.cpp', 'src/jit_compiler_x86_static.S'],
    explanation='TODO', trusted=[], outside=[]),
 }
